@@ -18,7 +18,7 @@ CHECK = {'title': 'Curves evaluate to their documented function, always within 0
          '+1e300 / MaxInt64, 0, -1, set point +-1 m-degree, 61 and 65 degrees) x dt in {0, 200 ms, 1 s} between evaluations. Oracles on every evaluation: no panic, no error, '
          'value in 0..255, value == CurrentValue(), value matches the reference (linear: floor(exact)..ceil(exact); function: exact; pid: '
          'int(clamp(out,0,1)*255) +-1, any in-range value when dt=0 because the derivative is undefined). distinct_nontrivial is defined in the '
-         'notes of the evidence file. Second run: a controller evaluating a linear curve while the monitor stores a new smoothed value in the same sensor, scheduling points at every sensor lock operation, all interleavings x 10 value pairs x min/max and step curves: the value must be the curves value for one of the two sensor states.',
+         'notes of the evidence file. Second run: a controller evaluating a linear curve while the monitor stores a new smoothed value in the same sensor, scheduling points at every sensor lock operation, all interleavings x 10 value pairs x min/max and step curves: the value must be the curves value for one of the two sensor states. Linear curves additionally: the first evaluation of a new curve object at every input, every input twice in a row, and the inputs in reverse order (state carried between evaluations), with the stored value left alone.',
  'assumptions': ['Go 1.26 toolchain (testing/synctest virtual clock) is faithful to real timer semantics',
                  'harness environment model (in-memory integer files behind the util.VerifFileOp seam) is faithful to sysfs for integer reads',
                  'an evaluation that differs from the exact rational value by less than 1e-9 before rounding is float noise, not a defect '
